@@ -18,9 +18,9 @@ LEVEL = "other"
 def run(ctx):
     R = ctx.report
     R.explanation = ("TAB: decode-then-encode is the identity on the used bits of every code field for every decoder row (HTYP, MSIN, type info, control id); "
-                     "WIRE: writer layouts per shape write the stored fields unchanged from the message's own parts; parser-side header fields are read from the spec offsets.")
+                     "WIRE: writer layouts per shape write the stored fields unchanged from the message's own parts; parser-side header fields and every field of a verbose argument are read from the spec offsets (WIRE-PH, WIRE-PA), so parser and writer agree on the layout shape by shape.")
     R.not_decided = ["idempotence of the string normalisation (NUL cut / UTF-8 prefix): library semantics", "the hypothesis 're-serialisation has the declared length' is a runtime condition",
-                     "parser-side field-by-field layout of arguments (consumption and byte order only)"]
+                     ]
     lib_codes.check_msin(ctx)
     R.floor("TAB-MSIN.row", 25)
     lib_codes.check_msin_compose(ctx)
@@ -30,6 +30,9 @@ def run(ctx):
     R.floor("TAB-TI.row", 80)
     lib_codes.check_ctrl_id(ctx)
     lib_wirep.check_all(ctx, "WIRE-PH")
+    from rules import lib_wirepa
+    lib_wirepa.check(ctx, "WIRE-PA")
+    R.floor("WIRE-PA", 20)
     rows = lib_wire.check_writer(ctx, "WIRE-W")
     R.floor("WIRE-W.shape", 40)
     lib_wire.check_payload(ctx, "WIRE-P")
